@@ -1203,6 +1203,12 @@ func (p *Parser) parseBindingElement(decl DeclType) (bindingElement BindingEleme
 
 func (p *Parser) parseBinding(decl DeclType) (binding IBinding) {
 	// BindingIdentifier, BindingPattern
+	p.exprLevel++
+	if NestedExprLimit < p.exprLevel {
+		p.failMessage("too many nested expressions")
+		return nil
+	}
+
 	if p.isIdentifierReference(p.tt) {
 		var ok bool
 		binding, ok = p.scope.Declare(decl, p.data)
@@ -1321,6 +1327,7 @@ func (p *Parser) parseBinding(decl DeclType) (binding IBinding) {
 		p.fail("binding")
 		return
 	}
+	p.exprLevel--
 	return
 }
 
